@@ -39,8 +39,9 @@ type c16Line struct {
 }
 
 type c16Node struct {
-	Lines []c16Line `json:"lines"`
-	Dir   bool      `json:"dir,omitempty"`
+	Lines  []c16Line `json:"lines"`
+	Dir    bool      `json:"dir,omitempty"`
+	NotDir bool      `json:"notdir,omitempty"` // nothing is created: a parent of the path is a regular file of the tree
 }
 
 type c16EnvFile struct {
@@ -128,6 +129,9 @@ func c16WriteTree(files map[string]c16Node) (string, error) {
 	}
 	for name, nd := range files {
 		p := filepath.Join(root, name)
+		if nd.NotDir {
+			continue
+		}
 		if nd.Dir {
 			if err := os.MkdirAll(p, 0o755); err != nil {
 				return root, err
@@ -150,7 +154,7 @@ var c16ErrClasses = []struct {
 }{
 	{regexp.MustCompile(`(env|label) file .* not found`), "notFound"},
 	{regexp.MustCompile(`unsupported env_file format`), "format"},
-	{regexp.MustCompile(`is a directory`), "read"},
+	{regexp.MustCompile(`is a directory|not a directory`), "read"},
 	{regexp.MustCompile(`^line \d+: `), "parse"},
 	{regexp.MustCompile(`key cannot contain a space|unexpected character`), "parse"},
 }
@@ -390,6 +394,16 @@ type c16Layer struct {
 	Lines    []c16Line `json:"lines"`
 	Present  bool      `json:"present"`
 	Required bool      `json:"required"`
+	// UnderFile (only with !Present): the path is Path + "/x" and Path itself is a regular file, so that
+	// nothing exists at the listed path but os.Stat says ENOTDIR rather than ENOENT
+	UnderFile bool `json:"under_file,omitempty"`
+}
+
+func (l c16Layer) listed() string {
+	if l.UnderFile && !l.Present {
+		return l.Path + "/x"
+	}
+	return l.Path
 }
 
 type c16OracleArgs struct {
@@ -408,10 +422,10 @@ func (o c16OracleArgs) toArgs(discard bool) c16Args {
 	a := c16Args{Penv: o.Penv, Files: map[string]c16Node{}, Discard: discard}
 	s := c16Service{Name: "s", Environment: o.Environment, Labels: o.Labels, ShortFiles: true}
 	for _, l := range o.EnvLayers {
-		if l.Present {
+		if l.Present || l.UnderFile {
 			a.Files[l.Path] = c16Node{Lines: l.Lines}
 		}
-		s.EnvFiles = append(s.EnvFiles, c16EnvFile{Path: l.Path, Required: l.Required})
+		s.EnvFiles = append(s.EnvFiles, c16EnvFile{Path: l.listed(), Required: l.Required})
 	}
 	for _, l := range o.LabelLayers {
 		if l.Present {
@@ -419,6 +433,17 @@ func (o c16OracleArgs) toArgs(discard bool) c16Args {
 		}
 		s.LabelFiles = append(s.LabelFiles, l.Path)
 	}
+	// a sibling service with its own files, environment and labels over the same keys: nothing of it may show up in `s`
+	sib := c16Service{Name: "sibling", EnvFiles: []c16EnvFile{{Path: "sibling.env", Required: true}}, LabelFiles: []string{"sibling.lbl"}}
+	var sl []c16Line
+	for _, k := range append(append([]string{}, o.Keys...), "SIBLING") {
+		sl = append(sl, c16Assign(k, c16Lit("leak."+k)))
+		sib.Environment = append(sib.Environment, c16kv(k, sp("leak-env."+k)))
+		sib.Labels = append(sib.Labels, c16kv(k, sp("leak-label."+k)))
+	}
+	a.Files["sibling.env"] = c16Node{Lines: sl}
+	a.Files["sibling.lbl"] = c16Node{Lines: sl}
+	sib.YEnv = &c16YEnv{Map: &sib.Environment}
 	if len(o.Environment) > 0 {
 		y := &c16YEnv{}
 		if o.ListForm {
@@ -433,7 +458,7 @@ func (o c16OracleArgs) toArgs(discard bool) c16Args {
 		}
 		s.YEnv = y
 	}
-	a.Services = []c16Service{s}
+	a.Services = []c16Service{s, sib}
 	return a
 }
 
@@ -581,6 +606,11 @@ func c16JudgeOracle(args, real, drv json.RawMessage) *core.Verdict {
 			continue
 		}
 		if out.Err != nil {
+			for _, l := range o.EnvLayers {
+				if l.UnderFile && !l.Present && !l.Required && *out.Err == "read" {
+					return core.Fail("missing-optional-not-skipped:enotdir", "an env file marked required:false whose path lies under a regular file is not skipped: "+*out.Err)
+				}
+			}
 			return core.Fail("unexpected-error:"+via+":"+strings.SplitN(*out.Err, ":", 2)[0], "the property gives a value but the real code fails: "+*out.Err)
 		}
 		obs, ok := out.Ok["s"]
@@ -637,7 +667,7 @@ func c16JudgeOracle(args, real, drv json.RawMessage) *core.Verdict {
 				return core.Fail("file-refs-changed:"+via, "file references changed without the discard option")
 			}
 			for i, l := range o.EnvLayers {
-				if obs.EnvFiles[i].Path != l.Path || obs.EnvFiles[i].Required != l.Required {
+				if obs.EnvFiles[i].Path != l.listed() || obs.EnvFiles[i].Required != l.Required {
 					return core.Fail("file-refs-changed:"+via, "env_file reference changed without the discard option")
 				}
 			}
